@@ -68,7 +68,7 @@ class Opaque:
         return f'<{self.desc}>'
 
 
-STR_METHODS = {'find', 'startswith', 'endswith', 'replace', 'lower', 'upper', 'strip', 'split', 'index', 'get', 'items', 'keys', 'values', 'decode', 'encode', 'count', 'join', 'lstrip', 'rstrip', 'isdigit'}
+STR_METHODS = {'find', 'startswith', 'endswith', 'replace', 'lower', 'upper', 'strip', 'split', 'index', 'get', 'items', 'keys', 'values', 'decode', 'encode', 'count', 'join', 'lstrip', 'rstrip', 'isdigit', 'capitalize', 'title', 'swapcase', 'casefold', 'isalpha', 'isupper', 'islower', 'isspace', 'isalnum', 'zfill', 'partition', 'rpartition', 'splitlines', 'format', 'rfind', 'rindex', 'rsplit', 'removeprefix', 'removesuffix', 'hex', 'copy'}
 
 
 class Evaluator:
